@@ -7,6 +7,7 @@ import (
 	"sort"
 	"strconv"
 	"strings"
+	"sync"
 	"time"
 	"unicode/utf8"
 
@@ -18,6 +19,7 @@ import (
 	componentbaseconfig "k8s.io/component-base/config"
 
 	proxyv1alpha1 "github.com/kubewharf/kubegateway/pkg/apis/proxy/v1alpha1"
+	gatewayclientset "github.com/kubewharf/kubegateway/pkg/client/kubernetes"
 	gatewayfake "github.com/kubewharf/kubegateway/pkg/client/kubernetes/fake"
 	proxylisters "github.com/kubewharf/kubegateway/pkg/client/listers/proxy/v1alpha1"
 	"github.com/kubewharf/kubegateway/pkg/ratelimiter/limiter"
@@ -45,6 +47,59 @@ type env struct {
 	le      elector.LeaderElector
 	indexer cache.Indexer
 	n       int
+
+	// OnStoppedLeading callbacks the harness holds open (loseBegin … loseEnd), per shard
+	blockMu sync.Mutex
+	blocked map[int]*heldStop
+}
+
+// heldStop is an OnStoppedLeading callback (of the real elector's stopLeading) held open by the harness.
+type heldStop struct {
+	entered chan struct{} // the callback has been entered
+	release chan struct{} // let it proceed to the real rateLimiter.stopLeading
+	done    chan struct{} // elector.stopLeading has returned
+}
+
+// holdStops re-wires OnStoppedLeading to a function that - for a shard the harness wants to hold - reports that the
+// callback was entered and waits, and then (always) runs the real rateLimiter.stopLeading.
+func (e *env) holdStops() {
+	e.blocked = map[int]*heldStop{}
+	limiter.VerifC13SetStopCallback(e.rl, func(shardId int) {
+		e.blockMu.Lock()
+		h := e.blocked[shardId]
+		e.blockMu.Unlock()
+		if h != nil {
+			close(h.entered)
+			<-h.release
+		}
+		limiter.VerifC13StopLeading(e.rl, shardId)
+	})
+}
+
+// wellFormedStops: per shard, loseBegin s … loseEnd s pairs with no gain/lose/loseBegin of s in between (client-go
+// runs one election loop per shard: nothing else of that shard's loop happens while its OnStoppedLeading runs);
+// a trailing unmatched loseBegin is allowed (the history ends inside the callback).
+func wellFormedStops(ops []Op) bool {
+	open := map[int64]bool{}
+	for _, o := range ops {
+		switch o.Op {
+		case "loseBegin":
+			if open[o.S] {
+				return false
+			}
+			open[o.S] = true
+		case "loseEnd":
+			if !open[o.S] {
+				return false
+			}
+			delete(open, o.S)
+		case "gain", "lose":
+			if open[o.S] {
+				return false
+			}
+		}
+	}
+	return true
 }
 
 const fcName = "fc"
@@ -66,7 +121,7 @@ func newEnv(me string, n int, storeType string, lister []string) (*env, error) {
 }
 
 // newEnvWith: the same with a given gateway clientset (the API the k8s store writes to) and k8s store sync period.
-func newEnvWith(me string, n int, storeType string, lister []string, gc *gatewayfake.Clientset, period time.Duration) (*env, error) {
+func newEnvWith(me string, n int, storeType string, lister []string, gc gatewayclientset.Interface, period time.Duration) (*env, error) {
 	indexer := cache.NewIndexer(cache.MetaNamespaceKeyFunc, cache.Indexers{})
 	for _, u := range lister {
 		indexer.Add(clusterObj(u))
@@ -263,6 +318,29 @@ func (e *env) apply(o Op) implStep {
 			elector.VerifC13StartLeading(e.le, int(o.S))
 		case "lose":
 			elector.VerifC13StopLeading(e.le, int(o.S))
+		case "loseBegin":
+			h := &heldStop{entered: make(chan struct{}), release: make(chan struct{}), done: make(chan struct{})}
+			e.blockMu.Lock()
+			e.blocked[int(o.S)] = h
+			e.blockMu.Unlock()
+			go func() { defer close(h.done); rig.Recover(func() { elector.VerifC13StopLeading(e.le, int(o.S)) }) }()
+			select {
+			case <-h.entered: // client-go's OnStoppedLeading is now running, held open
+			case <-h.done:
+			case <-time.After(20 * time.Second):
+				panic("harness: OnStoppedLeading never entered")
+			}
+		case "loseEnd":
+			e.blockMu.Lock()
+			h := e.blocked[int(o.S)]
+			delete(e.blocked, int(o.S))
+			e.blockMu.Unlock()
+			close(h.release)
+			select {
+			case <-h.done:
+			case <-time.After(20 * time.Second):
+				panic("harness: OnStoppedLeading never returned")
+			}
 		case "newLeader":
 			elector.VerifC13SetLeader(e.le, int(o.S), rig.UnHex(o.ID))
 		case "leaderCheck":
@@ -441,6 +519,10 @@ func runHistory(c *rig.Ctx, cs Case, m mode) int {
 		fail("diff", "c13.bad-case", "history with a shard count whose uint32 is 0", -1, nil, nil)
 		return v.flush(c, m)
 	}
+	if !wellFormedStops(cs.Ops) {
+		fail("diff", "c13.bad-case", "history with ill-formed loseBegin/loseEnd", -1, nil, nil)
+		return v.flush(c, m)
+	}
 	me := rig.UnHex(cs.Me)
 	pool := histPool(cs)
 	e, err := newEnv(me, int(cs.N), cs.StoreType, unhexAll(cs.Lister))
@@ -448,6 +530,22 @@ func runHistory(c *rig.Ctx, cs Case, m mode) int {
 		fail("diff", "c13.harness", "cannot build a rate limiter: "+err.Error(), -1, nil, nil)
 		return v.flush(c, m)
 	}
+	for _, o := range cs.Ops {
+		if o.Op == "loseBegin" {
+			e.holdStops()
+			break
+		}
+	}
+	defer func() { // a history may end inside a callback: let it finish
+		e.blockMu.Lock()
+		held := e.blocked
+		e.blocked = map[int]*heldStop{}
+		e.blockMu.Unlock()
+		for _, h := range held {
+			close(h.release)
+			<-h.done
+		}
+	}()
 	steps := make([]implStep, len(cs.Ops))
 	snaps := make([]snapshot, len(cs.Ops))
 	before := e.snap(pool)
@@ -520,7 +618,7 @@ func runHistory(c *rig.Ctx, cs Case, m mode) int {
 		if me != "" && ms.JudgeImpl != nil && !*ms.JudgeImpl {
 			class, what := "c13.guard."+o.Op, ""
 			switch o.Op {
-			case "lose":
+			case "lose", "loseEnd":
 				class, what = "c13.discard.lose", fmt.Sprintf("after losing shard %d its store is still there (stores: %v)", o.S, is.StoresAfter)
 			case "leaderCheck":
 				class, what = "c13.discard.leadercheck", fmt.Sprintf("after leaderCheck stores %v remain although not all are led by %q (leaders %s)", is.StoresAfter, me, rig.Canon(snaps[i].leaders))
@@ -668,6 +766,28 @@ func genHistory(c *rig.Ctx, i int) Case {
 			o = Op{Op: "gain", S: shard()}
 		case r < 18:
 			o = Op{Op: "lose", S: shard()}
+			if c.Rng.Intn(3) == 0 {
+				// the stop callback is slow (final flush with retries): other things happen while it runs
+				s := o.S
+				cs.Ops = append(cs.Ops, Op{Op: "loseBegin", S: s})
+				for k := 1 + c.Rng.Intn(4); k > 0; k-- {
+					u := rig.Hex(rig.Pick(c.Rng, ups))
+					inst := rig.Hex(rig.Pick(c.Rng, instPool))
+					switch c.Rng.Intn(7) {
+					case 0:
+						cs.Ops = append(cs.Ops, Op{Op: "leaderCheck"})
+					case 1:
+						cs.Ops = append(cs.Ops, Op{Op: "clusterUpdate", U: u})
+					case 2, 3:
+						cs.Ops = append(cs.Ops, Op{Op: "allocate", U: u, Inst: inst, Flavor: c.Rng.Intn(3)})
+					case 4, 5:
+						cs.Ops = append(cs.Ops, Op{Op: "acquire", U: u, Inst: inst, Tokens: int64(c.Rng.Intn(20))})
+					default:
+						cs.Ops = append(cs.Ops, Op{Op: "newLeader", S: shard(), ID: rig.Hex(rig.Pick(c.Rng, others))})
+					}
+				}
+				o = Op{Op: "loseEnd", S: s}
+			}
 		case r < 30:
 			o = Op{Op: "newLeader", S: shard(), ID: rig.Hex(rig.Pick(c.Rng, others))}
 		case r < 38:
